@@ -68,6 +68,19 @@ def check_const(case, ctx):
     ctx.close('symmetry', K, K.T, 1e-13, bucket=name + '.symmetry')
     _w_only(ctx, K, pd, row0, own, name)
     ctx.ok(np.array_equal(dense(p.kG0), K), 'kG0.attribute', 'Panel.kG0 differs from the returned matrix')
+    # the constant-load matrix does not depend on the laminate: handing the (uniform) laminate over explicitly - as a 6x6 matrix or as a
+    # per-point table - without a Ritz state must change nothing
+    larg = case.get('lam_arg', 'none')
+    if larg != 'none':
+        F6 = np.ascontiguousarray(pkg.ref_F(case))
+        nq = max(2 * pd.m, 2 * pd.n, 4)
+        Fgiven = F6 if larg == 'F6' else np.ascontiguousarray(np.broadcast_to(F6, (nq, nq, 6, 6)))
+        pf = pkg.make_panel(case)
+        pf.Nxx, pf.Nyy, pf.Nxy = N
+        with package(name + '.laminate-given'):
+            Kf = dense(pf.calc_kG0(size=size, row0=row0, col0=row0, silent=True, Fnxny=Fgiven))
+        ctx.label('lam_arg:' + larg)
+        ctx.close('laminate-given', Kf, K, TOL, bucket=name + '.laminate-given', scale=sc, atol=floor)
     # linear in each resultant: superposition of the three unit loads
     Kx, _ = run(1., 0., 0.)
     Ky, _ = run(0., 1., 0.)
@@ -264,6 +277,7 @@ def _const_strategy(draw, tier='quick'):
     elif kind == 'tension':
         v = [abs(v[0]), abs(v[1]), v[2]]
     case['N'] = [sc * x if abs(x) > 1e-6 else 0. for x in v]
+    case['lam_arg'] = draw(st.sampled_from(['none', 'none', 'F6', 'table']))
     return case
 
 
